@@ -118,3 +118,34 @@ def true_maxcv(b, x, nl_values, bounds_consistent=True):
     if np.any(np.isnan(allv)):
         return float("nan"), slack
     return float(np.max(allv)), slack
+
+
+def user_point(b, scale_opt, x_int):
+    """The documented map from the solver's internal (reduced, scaled)
+    variables to the user's: variables with lb = ub (to rounding) are held at
+    that value; with scale=True and all remaining bounds finite the others
+    are x*(ub-lb)/2 + (ub+lb)/2; the result is projected onto the bounds.
+    Written from the documentation, independent of Problem.build_x.  Returns
+    None when it does not apply (inconsistent bounds, wrong shape)."""
+    lb = np.asarray(b.lb, dtype=float)
+    ub = np.asarray(b.ub, dtype=float)
+    if not np.all(lb <= ub):
+        return None
+    n = lb.size
+    w = np.maximum(1.0, np.maximum(np.where(np.isfinite(lb), np.abs(lb), 0.0),
+                                   np.where(np.isfinite(ub), np.abs(ub), 0.0)))
+    tol = 10.0 * EPS * max(n, 1) * w
+    with np.errstate(invalid="ignore"):
+        fixed = (lb <= ub) & (np.abs(lb - ub) < tol)
+    x_int = np.asarray(x_int, dtype=float)
+    if x_int.shape != (int(np.count_nonzero(~fixed)),):
+        return None
+    rl, ru = lb[~fixed], ub[~fixed]
+    full = np.empty(n)
+    full[fixed] = np.clip(0.5 * (lb[fixed] + ub[fixed]), lb[fixed], ub[fixed])
+    if scale_opt and rl.size and np.all(np.isfinite(rl)) and \
+            np.all(np.isfinite(ru)):
+        full[~fixed] = x_int * (0.5 * (ru - rl)) + 0.5 * (ru + rl)
+    else:
+        full[~fixed] = x_int
+    return np.clip(full, lb, ub)
